@@ -646,7 +646,7 @@ Definition step (v : vm) (r : regs) (retResult : bool) : stepres :=
     if zlen (m_fp m) - 1 <? 0 then
       (* top level: unwind to the end of the code *)
       let m1 := with_stack m (m_stack m) 0 in
-      v2 <~ vPush (set_mem v1 mid m1 false) mid val ;;
+      v2 <~ (if retResult then vPush (set_mem v1 mid m1 false) mid val else Good (set_mem v1 mid m1 false)) ;;
       Good (next v2 (with_ip r (v_ncs v2 - 1)))
     else
       le <~ fp_at m (-1) ;;
